@@ -13,7 +13,7 @@ import (
 
 // C22 — Application settings (ALPS) are exchanged consistently.
 func TestC22(t *testing.T) {
-	r := mon.New("C22", "ALPS-capable targets (parrots carrying application_settings on either code point, randomized/custom specs that drew ALPS) x configured ApplicationSettings maps (absent, empty, 1 B, 4 KB) x ALPN choice; the hooked server appends an application_settings extension to its real EncryptedExtensions (H1, before the transcript) and reads the client's EncryptedExtensions into its transcript (H9, with RequestClientCert so the client Finished is verified over it). Oracle: PeerApplicationSettings equals the server's bytes, the client EE carries the same code point and the client's configured settings for the selected protocol, the handshake completes; ALPS under TLS 1.2 or without ALPN => the client aborts. distinct = (target family, code point, settings shape, scenario)")
+	r := mon.New("C22", "ALPS-capable targets (parrots carrying application_settings on either code point, randomized/custom specs that drew ALPS) x configured ApplicationSettings maps (absent, empty, 1 B, 4 KB) x ALPN choice, and generated QUIC specs carrying ALPN h3 + application_settings driven through UQUICClient against the hooked QUIC server; the hooked server appends an application_settings extension to its real EncryptedExtensions (H1, before the transcript) and reads the client's EncryptedExtensions into its transcript (H9, with RequestClientCert so the client Finished is verified over it). Oracle: PeerApplicationSettings equals the server's bytes, the client EE carries the same code point and the client's configured settings for the selected protocol, the handshake completes; ALPS under TLS 1.2 or without ALPN => the client aborts. distinct = (target family, code point, settings shape, scenario)")
 	defer r.Finish(t)
 	var targets []Target
 	targets = append(targets, ParrotTargets(false)...)
@@ -198,6 +198,80 @@ func TestC22(t *testing.T) {
 			r.Sample(map[string]any{"target": j.t.Name, "codepoint": j.cp, "proto": j.proto, "settings": j.settings, "scenario": j.scenario, "client_ee": mon.Hex(obs.ClientEE)})
 		}
 	})
+	// the same over QUIC (UQUICClient against a hooked QUIC server): ALPS rides in the same
+	// EncryptedExtensions messages there
+	quicOK := 0
+	for i := 0; i < mon.Pick(24, 600); i++ {
+		rg := Sub("C22quic", i)
+		spec, _ := GenSpec(rg, GenOpts{QUIC: true, ForHandshake: true})
+		cp := []uint16{wire.ExtALPSOld, wire.ExtALPSNew}[i%2]
+		var exts []tls.TLSExtension
+		for _, e := range spec.Extensions {
+			switch e.(type) {
+			case *tls.ApplicationSettingsExtension, *tls.ApplicationSettingsExtensionNew, *tls.ALPNExtension:
+				continue
+			}
+			exts = append(exts, e)
+		}
+		alps := tls.TLSExtension(&tls.ApplicationSettingsExtension{SupportedProtocols: []string{"h3"}})
+		if cp == wire.ExtALPSNew {
+			alps = &tls.ApplicationSettingsExtensionNew{SupportedProtocols: []string{"h3"}}
+		}
+		// in front of the extensions that have to stay last (padding, pre_shared_key)
+		at := len(exts)
+		for at > 0 {
+			switch exts[at-1].(type) {
+			case *tls.UtlsPaddingExtension, tls.PreSharedKeyExtension:
+				at--
+				continue
+			}
+			break
+		}
+		exts = append(exts[:at:at], append([]tls.TLSExtension{&tls.ALPNExtension{AlpnProtocols: []string{"h3"}}, alps}, exts[at:]...)...)
+		spec.Extensions = exts
+		serverSettings := randBytes(rg, []int{0, 1, 17, 3000}[rg.Intn(4)])
+		clientSettings := randBytes(rg, []int{0, 1, 33}[rg.Intn(3)])
+		ccfg := &tls.Config{ServerName: "example.test", RootCAs: peer.Fix().CA.Pool, Time: peer.FixedTime, MinVersion: tls.VersionTLS13, NextProtos: []string{"h3"},
+			ApplicationSettings: map[string][]byte{"h3": clientSettings}}
+		scfg := peer.ServerConfig()
+		scfg.MinVersion = tls.VersionTLS13
+		scfg.NextProtos = []string{"h3"}
+		scfg.ClientAuth = tls.RequestClientCert
+		plan := &tls.VerifPlan{ReadClientEE: true}
+		plan.RewriteOut = rewriteEE(func(exts []wire.Ext) []wire.Ext { return setExt(exts, cp, serverSettings) })
+		run := driveQUIC(rg, ccfg, spec, scfg, -1, rg.Intn(2) == 0, quicOpts{serverPlan: plan})
+		sig := map[string]string{"target": "quic", "codepoint": fmt.Sprint(cp), "scenario": "quic"}
+		rep := map[string]any{"case": i, "codepoint": cp, "err": fmt.Sprint(run.err), "start_err": fmt.Sprint(run.startErr), "client_events": run.cli.events, "server_events": run.srv.events}
+		if run.hang != "" {
+			sig["kind"] = "hang"
+			r.Violation(sig, "QUIC: "+run.hang+" did not return", rep)
+			continue
+		}
+		if !run.completed {
+			sig["kind"] = "alps_handshake_failed"
+			r.Violation(sig, fmt.Sprintf("QUIC connection with application settings (code point %d) did not complete: %v", cp, run.err), rep)
+			continue
+		}
+		if !bytes.Equal(run.cliState.PeerApplicationSettings, serverSettings) {
+			sig["kind"] = "peer_settings_mismatch"
+			r.Violation(sig, fmt.Sprintf("QUIC: PeerApplicationSettings has %d bytes, server sent %d", len(run.cliState.PeerApplicationSettings), len(serverSettings)), rep)
+		}
+		obs := plan.Obs()
+		if !obs.ClientEESeen {
+			sig["kind"] = "client_ee_missing"
+			r.Violation(sig, "QUIC: server saw no client EncryptedExtensions", rep)
+			continue
+		}
+		if ce, ok := eeExts(obs.ClientEE); !ok || len(ce) != 1 || ce[0].Type != cp || !bytes.Equal(ce[0].Data, clientSettings) {
+			sig["kind"] = "client_settings_not_sent"
+			r.Violation(sig, fmt.Sprintf("QUIC: client EncryptedExtensions %x does not carry the %d configured settings bytes on code point %d", obs.ClientEE, len(clientSettings), cp), rep)
+			continue
+		}
+		quicOK++
+		r.Case(fmt.Sprintf("quic|%d|%d", cp, len(serverSettings)), true)
+	}
+	r.Count("quic_alps_connections_ok", int64(quicOK))
+	r.Floor("quic_alps_connections_ok", 10)
 	r.Floor("alps_capable_targets", 8)
 	r.Floor("alps_completed", 40)
 }
